@@ -16,6 +16,9 @@ Local Open Scope Z_scope.
 
 Inductive lit := LI (z : Z) | LF (bits : Z) | LB (b : bool) | LS (s : N).
 
+(* for any / all / none / <n> / <p>% *)
+Inductive quant := QtAny | QtAll | QtNone | QtN (c : Z) | QtPct (pct : Z).
+
 Inductive query :=
   | QDefined (p : list step)                          (* defined <p> *)
   | QEq (p : list step) (l : lit)                     (* <p> == l *)
@@ -28,7 +31,16 @@ Inductive query :=
   | QStrLen (p : list step) (n : Z)                   (* <p>.len() == n, p a string *)
   | QContains (p : list step) (needle : list N)       (* <p> contains "needle" *)
   | QStartsWith (p : list step) (needle : list N)     (* <p> startswith "needle" *)
-  | QEndsWith (p : list step) (needle : list N).      (* <p> endswith "needle" *)
+  | QEndsWith (p : list step) (needle : list N)       (* <p> endswith "needle" *)
+  (* every quantifier over arrays and maps *)
+  | QFor (qt : quant) (p sub : list step) (l : lit)   (* for <qt> x in <p> : (x<sub> == l) *)
+  | QMapFor (qt : quant) (p : list step) (keys : list value) (sub : list step) (l : lit)
+                                                      (* for <qt> k, v in <p> : (v<sub> == l); keys: the map's keys *)
+  (* contexts in which undefined, false and true differ *)
+  | QNot (q : query)                                  (* not (q) *)
+  | QIsDefined (q : query)                            (* defined (q) *)
+  | QOrFalse (q : query)                              (* (q) or false *)
+  | QAndTrue (q : query).                             (* (q) and true *)
 
 Fixpoint prefix_b (a b : list N) : bool :=
   match a, b with
@@ -59,30 +71,78 @@ Definition res_eq (r : res) (l : lit) : bool :=
   | _, _ => false
   end.
 
-Definition eval (tbl : list (N * list N)) (F : list step -> res) (q : query) : bool :=
+Definition is_undef (r : res) : bool := match r with Undef | Stuck => true | _ => false end.
+
+(* The result of a loop over n items of which [count] made the body true (a body
+   that is undefined counts as false: emit_for wraps it in catch_undef).
+   ZERO ITERATIONS: the code leaves a loop over an empty array or map with `false`
+   before the first iteration, whatever the quantifier (emit_for_in_array /
+   emit_for_in_map: "if n <= 0, exit from the loop"); conditions.md does not say
+   what `for all` / `for none` over an empty collection mean, so the model follows
+   the code (DESIGN 1.3).  What the property does pin down is that a loop over a
+   collection with no items runs no iteration: its value is DEFINED. *)
+Definition quant_result (qt : quant) (n count : nat) : bool :=
+  if Nat.eqb n 0 then false
+  else match qt with
+       | QtAny => negb (Nat.eqb count 0)
+       | QtAll => Nat.eqb count n
+       | QtNone => Nat.eqb count 0
+       | QtN c => if Z.eqb c 0 then Nat.eqb count 0 else Z.leb c (Z.of_nat count)
+       | QtPct pc =>
+           (* max_count = ceil (n * pct / 100) *)
+           let m := (Z.of_nat n * pc + 99) / 100 in
+           if Z.eqb m 0 then Nat.eqb count 0 else Z.leb m (Z.of_nat count)
+       end.
+Definition count_true (l : list bool) : nat := List.length (filter (fun b => b) l).
+
+(* three-valued evaluation: None = undefined *)
+Fixpoint eval3 (tbl : list (N * list N)) (F : list step -> res) (q : query) : option bool :=
+  let str (p : list step) (f : list N -> bool) : option bool :=
+    if is_undef (F p) then None else Some (on_bytes tbl (F p) f) in
   match q with
-  | QDefined p => match F p with Undef | Stuck => false | _ => true end
-  | QEq p l => res_eq (F p) l
+  | QDefined p => Some (negb (is_undef (F p)))
+  | QEq p l => if is_undef (F p) then None else Some (res_eq (F p) l)
   | QLen p n => match F p with
-                | RObjArr k | RObjMap k => Z.eqb (Z.of_nat k) n
-                | _ => false
+                | RObjArr k | RObjMap k => Some (Z.eqb (Z.of_nat k) n)
+                | _ => None
                 end
   | QAny p sub l => match F p with
-                    | RObjArr k => existsb (fun i => res_eq (F (p ++ SIndex (Z.of_nat i) :: sub)) l) (seq 0 k)
-                    | _ => false
+                    | RObjArr k => Some (quant_result QtAny k (count_true (map (fun i => res_eq (F (p ++ SIndex (Z.of_nat i) :: sub)) l) (seq 0 k))))
+                    | _ => None
                     end
   | QAll p sub l => match F p with
-                    (* `for all` over an empty array is false in yara-x (the loop body never runs and the
-                       quantifier needs at least one iteration); the quantifiers themselves belong to C02 *)
-                    | RObjArr k => negb (Nat.eqb k 0) && forallb (fun i => res_eq (F (p ++ SIndex (Z.of_nat i) :: sub)) l) (seq 0 k)
-                    | _ => false
+                    | RObjArr k => Some (quant_result QtAll k (count_true (map (fun i => res_eq (F (p ++ SIndex (Z.of_nat i) :: sub)) l) (seq 0 k))))
+                    | _ => None
                     end
-  | QMapAny p k sub l => res_eq (F (p ++ SKey k :: sub)) l
-  | QStrLen p n => on_bytes tbl (F p) (fun b => Z.eqb (Z.of_nat (List.length b)) n)
-  | QContains p x => on_bytes tbl (F p) (infix_b x)
-  | QStartsWith p x => on_bytes tbl (F p) (prefix_b x)
-  | QEndsWith p x => on_bytes tbl (F p) (fun b => prefix_b (rev x) (rev b))
+  | QFor qt p sub l => match F p with
+                       | RObjArr k => Some (quant_result qt k (count_true (map (fun i => res_eq (F (p ++ SIndex (Z.of_nat i) :: sub)) l) (seq 0 k))))
+                       | _ => None
+                       end
+  | QMapAny p k sub l => match F p with
+                         | RObjMap n => Some (negb (Nat.eqb n 0) && res_eq (F (p ++ SKey k :: sub)) l)
+                         | _ => None
+                         end
+  | QMapFor qt p keys sub l =>
+      match F p with
+      | RObjMap n => if Nat.eqb n (List.length keys)
+                     then Some (quant_result qt n (count_true (map (fun k => res_eq (F (p ++ SKey k :: sub)) l) keys)))
+                     else None
+      | _ => None
+      end
+  | QStrLen p n => str p (fun b => Z.eqb (Z.of_nat (List.length b)) n)
+  | QContains p x => str p (infix_b x)
+  | QStartsWith p x => str p (prefix_b x)
+  | QEndsWith p x => str p (fun b => prefix_b (rev x) (rev b))
+  | QNot q' => option_map negb (eval3 tbl F q')
+  | QIsDefined q' => Some (match eval3 tbl F q' with Some _ => true | None => false end)
+  (* `or` / `and` take an undefined operand as false *)
+  | QOrFalse q' => Some (match eval3 tbl F q' with Some b => b | None => false end)
+  | QAndTrue q' => Some (match eval3 tbl F q' with Some b => b | None => false end)
   end.
+
+(* a rule matches iff its condition is defined and true *)
+Definition eval (tbl : list (N * list N)) (F : list step -> res) (q : query) : bool :=
+  match eval3 tbl F q with Some b => b | None => false end.
 
 (* ---- the schema generated from the .proto sources (Gen/ProtoSchema.v) ---- *)
 Fixpoint str_index (s : string) (l : list string) (i : N) : option N :=
@@ -146,7 +206,7 @@ Definition lookup_indexes (ops : list op) : list nat :=
 
 (* the field indexes (Symbol::Field { index }, module root excluded) that the
    compiled rule of a query must contain, in source order *)
-Definition query_indexes (root : ty) (q : query) : option (list nat) :=
+Fixpoint query_indexes (root : ty) (q : query) : option (list nat) :=
   let direct p := option_map lookup_indexes (compile_path root p []) in
   let looped p (elem : ty -> option ty) sub :=
     match compile_path root p [], type_at root p with
@@ -157,10 +217,13 @@ Definition query_indexes (root : ty) (q : query) : option (list nat) :=
         end
     | _, _ => None
     end in
+  let arr t := match t with TArr e => Some e | _ => None end in
+  let mp t := match t with TMap _ v => Some v | _ => None end in
   match q with
   | QDefined p | QEq p _ | QLen p _ | QStrLen p _ | QContains p _ | QStartsWith p _ | QEndsWith p _ => direct p
-  | QAny p sub _ | QAll p sub _ => looped p (fun t => match t with TArr e => Some e | _ => None end) sub
-  | QMapAny p _ sub _ => looped p (fun t => match t with TMap _ v => Some v | _ => None end) sub
+  | QAny p sub _ | QAll p sub _ | QFor _ p sub _ => looped p arr sub
+  | QMapAny p _ sub _ | QMapFor _ p _ sub _ => looped p mp sub
+  | QNot q' | QIsDefined q' | QOrFalse q' | QAndTrue q' => query_indexes root q'
   end.
 
 Fixpoint list_nat_eqb (a b : list nat) : bool :=
